@@ -37,3 +37,11 @@ Proof. reflexivity. Qed.
 Theorem C20_no_self_deadlock : Gen.no_reentrant_locks = true.
 Proof. reflexivity. Qed.
 Print Assumptions C20_no_self_deadlock.
+
+(* ---------- lock discipline of the operations the model treats as atomic (go/ast obligation on the source under test) ---------- *)
+(* The module group's context handling and the task scheduler (6 methods of package mgr) and the
+   link / listener registries that Stop walks (15 methods of package peering) run as one critical
+   section each. *)
+Theorem C20_lock_discipline : Gen.lock_discipline_mgr = true /\ Gen.lock_discipline_peering = true.
+Proof. repeat split; reflexivity. Qed.
+Print Assumptions C20_lock_discipline.
